@@ -98,6 +98,7 @@ type Interp struct {
 	harnessFn   map[*ssa.Function]bool
 	stash       map[string]Value
 	stashCount  map[string]int
+	mapWrites   []*MapV
 	recvTotal   int
 	sendTotal   int
 	deadline    time.Time
